@@ -174,7 +174,8 @@ type evLaunchSpec struct {
 	Replicas  int               `json:"replicas"`
 	Real      bool              `json:"real"` // real `env` child instead of the simulated command
 	Dir       string            `json:"dir"`
-	Others    int               `json:"others"` // further processes launched at the same time, each with its own per-process values
+	Others    int               `json:"others"`      // further processes launched at the same time, each with its own per-process values
+	EnvCmdBad bool              `json:"env_cmd_bad"` // several env_cmds, one of them fails: the others still count
 }
 
 func genEvLaunch(rng *rand.Rand, real bool) evLaunchSpec {
@@ -193,6 +194,12 @@ func genEvLaunch(rng *rand.Rand, real bool) evLaunchSpec {
 		}
 	}
 	sp.EnvCmd = rng.Intn(4) == 0
+	bad := rng.Intn(2) == 0
+	if rng.Intn(3) == 0 {
+		// a variable that only the inherited environment defines and whose
+		// name happens to start with PC_
+		sp.Inherited["PC_PCV_OUTER"] = "outer-" + vals[rng.Intn(len(vals))]
+	}
 	sp.Replicas = []int{1, 1, 2, 3}[rng.Intn(4)]
 	if real {
 		sp.Replicas = 1
@@ -202,6 +209,7 @@ func genEvLaunch(rng *rand.Rand, real bool) evLaunchSpec {
 		sp.Others = 2 + rng.Intn(10)
 		sp.EnvCmd = rng.Intn(2) == 0
 	}
+	sp.EnvCmdBad = sp.EnvCmd && bad
 	return sp
 }
 
@@ -219,7 +227,7 @@ func runEnvLaunch(c fw.Case) fw.Result {
 	var sp evLaunchSpec
 	c.Params(&sp)
 	r := fw.Result{NonTrivial: true}
-	keys := []string{"PCV_K0", "PCV_K1", "PCV_K2", "PCV_K3", "PCV_CMD"}
+	keys := []string{"PCV_K0", "PCV_K1", "PCV_K2", "PCV_K3", "PCV_CMD", "PC_PCV_OUTER"}
 	for _, k := range keys {
 		os.Unsetenv(k)
 	}
@@ -241,6 +249,12 @@ func runEnvLaunch(c fw.Case) fw.Result {
 	y.WriteString("version: \"0.5\"\n")
 	if sp.EnvCmd {
 		y.WriteString("env_cmds:\n  PCV_CMD: 'echo from-cmd'\n")
+		if sp.EnvCmdBad {
+			y.WriteString("  PCV_BAD: 'exit 3'\n")
+			for k := 0; k < 6; k++ {
+				fmt.Fprintf(&y, "  PCV_CMD%d: 'echo cmd-%d'\n", k, k)
+			}
+		}
 	}
 	if len(sp.Global) > 0 {
 		y.WriteString("environment:\n")
@@ -308,6 +322,17 @@ func runEnvLaunch(c fw.Case) fw.Result {
 		}
 		if sp.EnvCmd && eff["PCV_CMD"] != "from-cmd" {
 			r.Add("C17", "launch-env:env_cmds", "%s: PCV_CMD=%q, expected the env_cmds output", who, eff["PCV_CMD"])
+		}
+		if sp.EnvCmdBad {
+			for k := 0; k < 6; k++ {
+				if n := fmt.Sprintf("PCV_CMD%d", k); eff[n] != fmt.Sprintf("cmd-%d", k) {
+					r.Add("C17", "launch-env:env_cmds", "%s: %s=%q, expected the output of its env_cmd (another env_cmd of the project fails)", who, n, eff[n])
+					break
+				}
+			}
+		}
+		if v, ok := inh["PC_PCV_OUTER"]; ok && eff["PC_PCV_OUTER"] != v {
+			r.Add("C17", "launch-env:precedence:inherited", "%s: the inherited variable PC_PCV_OUTER=%q reached the command as %q", who, v, eff["PC_PCV_OUTER"])
 		}
 		if _, ok := eff["PATH"]; !ok {
 			r.Add("C17", "launch-env:inherited-lost", "%s: the inherited PATH is missing", who)
